@@ -15,6 +15,7 @@ from ..worlds import relay
 ID = "C19"
 LEVEL = "exploration"
 CHUNK = 30
+CHUNK_DEADLINE = 600       # (long flavours: crowds, soaks, wide events; shared machines)
 BUDGET = {"quick": {"runs": 2500, "wall": 150}, "thorough": {"runs": 100000, "wall": 1200}}
 RULE = ("hostile connection: 3-12 frames, each a well-formed EVENT/REQ/CLOSE/AUTH with 1-2 typed "
         "mutations (every JSON type at any position of the command, event object or filter; dropped and "
